@@ -2,6 +2,7 @@ package rules
 
 import (
 	"fmt"
+	"go/token"
 	"go/types"
 	"morlockverif/checker/internal/core"
 	"sort"
@@ -484,10 +485,18 @@ func (m *metaCtx) labels(v ssa.Value, fr *mframe, seen map[mkey]bool) metaLab {
 		if derefNamed(x.X.Type()) == m.posT {
 			return l | m.fieldLabel(st.Field(x.Field))
 		}
+		if fl, ok := m.literalField(x.X, x.Field, fr, seen); ok {
+			return l | fl
+		}
 		return l | m.labels(x.X, fr, seen)
 	case *ssa.Field:
 		if derefNamed(x.X.Type()) == m.posT {
 			return l | m.fieldLabel(st.Field(x.Field))
+		}
+		// a field of a small struct built by a composite literal (position and side to move handed over together):
+		// only what was stored into that field
+		if fl, ok := m.literalField(x.X, x.Field, fr, seen); ok {
+			return l | fl
 		}
 		return l | m.labels(x.X, fr, seen)
 	case *ssa.Alloc:
@@ -512,6 +521,63 @@ func (m *metaCtx) labels(v ssa.Value, fr *mframe, seen map[mkey]bool) metaLab {
 		}
 	}
 	return l
+}
+
+// literalField: v is a struct value, or the address of a local struct, that (through parameter binding, spills
+// of a value receiver and whole-struct copies) goes back to a composite literal filled field by field; the
+// labels of what was stored into field idx.
+func (m *metaCtx) literalField(v ssa.Value, idx int, fr *mframe, seen map[mkey]bool) (metaLab, bool) {
+	return m.literalFieldD(v, idx, fr, seen, 0)
+}
+
+func (m *metaCtx) literalFieldD(v ssa.Value, idx int, fr *mframe, seen map[mkey]bool, depth int) (metaLab, bool) {
+	if depth > 8 || v == nil {
+		return 0, false
+	}
+	switch x := v.(type) {
+	case *ssa.Parameter:
+		if fr == nil || x.Parent() != fr.callee {
+			return 0, false
+		}
+		for j, q := range fr.callee.Params {
+			if q == x && j < len(fr.call.Call.Args) {
+				return m.literalFieldD(fr.call.Call.Args[j], idx, fr.parent, seen, depth+1)
+			}
+		}
+		return 0, false
+	case *ssa.UnOp:
+		if x.Op == token.MUL {
+			return m.literalFieldD(x.X, idx, fr, seen, depth+1)
+		}
+	case *ssa.Alloc:
+		var l metaLab
+		n := 0
+		for _, ref := range *x.Referrers() {
+			switch r := ref.(type) {
+			case *ssa.FieldAddr:
+				if r.Field != idx {
+					continue
+				}
+				for _, r2 := range *r.Referrers() {
+					if st, ok := r2.(*ssa.Store); ok && st.Addr == ssa.Value(r) {
+						l |= m.labels(st.Val, fr, seen)
+						n++
+					}
+				}
+			case *ssa.Store:
+				if r.Addr == ssa.Value(x) {
+					if fl, ok := m.literalFieldD(r.Val, idx, fr, seen, depth+1); ok {
+						l |= fl
+						n++
+					} else {
+						return 0, false
+					}
+				}
+			}
+		}
+		return l, n > 0
+	}
+	return 0, false
 }
 
 // callLabels: what result idx (-1: any) of a call depends on. A repo callee with a body is summarised per result:
